@@ -76,6 +76,8 @@ def dfa_request(a, dfas, fuel=20000):
     labels = {}
 
     def lid(l):
+        if l[:1] in ('"', "'"):
+            l = repr(pyast.literal_eval(l))          # one spelling per terminal: 'x', "x" and '\x78' are the same token
         return labels.setdefault(l, len(labels) + 1)
     rx = enc_rx(a, lid)
     idx = {id(s): i for i, s in enumerate(dfas)}
@@ -235,6 +237,13 @@ def check_grammar_text(text, drv, ctx, stream, index):
         err = str(e)
     except RecursionError:
         return None
+    names = [n for n, _ in rules]
+    if len(set(names)) < len(names):
+        # a rule defined twice: the generator has to refuse (silently keeping the last definition drops a rule of the text)
+        if pg is not None:
+            return 'C08:duplicate-rule-accepted'
+        ctx.nontrivial((stream, 'rejected', text))
+        return None
     if pg is None:
         # must really be non-LL(1): decide on automata built without the conflict check
         from parso.pgen2 import generator as gen_mod
@@ -316,6 +325,9 @@ def conflict_family():
                     "s: %s('c' 'd')* (a | b)\na: %s\nb: %s 'q'\n" % (head, tok, t2),
                 ]
                 out.extend(fam)
+    # the same terminal spelled in two ways, a rule defined twice
+    out += ["s: 'x' 'b' | \"x\" 'c'\n", "s: 'p' ('x' 'b' | \"x\" 'c')\n", "s: a | \"x\" 'c'\na: 'x' 'b'\n", "s: '\\x78' 'b' | 'x' 'c'\n", "s: \"x\" 'b'\n",
+            "a: 'x' 'b'\na: 'y'\n", "s: a 'z'\na: 'x'\na: 'x' 'y'\n"]
     return out
 
 
